@@ -34,7 +34,7 @@ func main() {
 	r := cfg.Rng
 	sh := vlib.NewShards(cfg.Out, "C11", "From Emitter Require Import Lib.Base Model.MsgCodec Model.Channel Model.Cipher Model.Key Check.C11.", "case", "check", 60)
 
-	channels := []string{"a/", "a/b/", "a/b/c/", "a/+/c/", "+/b/", "a/#/", "#/", "a/b/#/", "a", "a/b", "", "/", "a b/", "a//b/", "a/b/c/d/e/f/g/h/i/j/k/l/m/n/o/p/q/r/s/t/u/v/w/x/", "x/y/"}
+	channels := []string{"a/", "a/b/", "a/b/c/", "a/+/c/", "+/b/", "a/#/", "#/", "a/b/#/", "a", "a/b", "", "/", "a b/", "a//b/", "a/b#/", "x#/", "a/#b/", "a/b+/", "a/+b/", "#a/", "a/b/#", "a/#/#/", "users/bob#/", "a/b/c/d/e/f/g/h/i/j/k/l/m/n/o/p/q/r/s/t/u/v/w/x/", "x/y/"}
 	types := []string{"r", "w", "rw", "rwslp", "rwslpex", "e", "re", "x", "", "zzz", "rwq", "slp", "rwe", "p"}
 	ttls := []int32{0, 0, 1, 60, 3600, 86400 * 365, 2147483647, -1, -3600, -2147483648, -600000000, -(int32(time.Now().Unix()) - 10)}
 
